@@ -234,6 +234,19 @@ def cache_excl(ctx: Ctx) -> RuleResult:
         r.violate(f"{f.short}: the written mapping is filtered by '{norm_src(cond)}', not by 'id not in <excluded ids>'", f.loc(flt[0]),
                   "prefix / substring tests exclude nodes whose id merely begins with an excluded id", norm_src(cond))
         return r
+    # the mapping that is written is the filtered one
+    written = dump.args[0] if dump.args else None
+    if isinstance(written, ast.Name):
+        rd = ctx.reaching_defs(f, written.id, dump)
+        from_filter = any(isinstance(d, (ast.Assign, ast.AnnAssign)) and d.value is flt[0] for d in rd)
+        r.ob(from_filter, {"written object": written.id, "may be the filtered mapping": from_filter})
+        if not from_filter:
+            r.violate(f"{f.short}: the mapping that is written ('{written.id}') is never the filtered one", f.loc(dump),
+                      "the exclusion is computed and then dropped: the results of the cache_deps_of nodes are written to the file, so "
+                      "restarting from it does not execute them", norm_src(dump))
+            return r
+    elif written is not None and written is not flt[0]:
+        raise Undecided(f"{f.short}: written object is not a name: {norm_src(written)}")
     acc = cond.comparators[0].id
     defs = [n for n in iter_own_nodes(f.node) if isinstance(n, (ast.Assign, ast.AnnAssign)) and dotted(n.targets[0] if isinstance(n, ast.Assign) else n.target) == acc]
     r.require(len(defs) >= 1, f"definition of {acc} not found")
